@@ -354,7 +354,7 @@ def run_wire(prop, tier, seed):
     # join and split on group boundaries
     nparts = max(1, min(vlib.NCPU - 2, 12, len(b.vecs) // 1500 + 1))
     per = (len(b.vecs) + nparts - 1) // nparts
-    parts, cur, curf, last_grp = [], 0, None, None
+    parts, cur, curf, last_grp, curb = [], 0, None, None, 0
     stats = dict(enc=0, dec=0, sniff=0, panic=0, real_err=0, real_ok=0, items=0)
     with open(rp) as fr:
         for v, line in zip(b.vecs, fr):
@@ -371,14 +371,17 @@ def run_wire(prop, tier, seed):
                 stats["real_ok"] += nr["ok"]
                 stats["real_err"] += 1 - nr["ok"]
             g = v.get("grp", -1)
-            if curf is None or (cur >= per and (g != last_grp or g < 0)):
+            # (a judge process deserialises its whole part: parts are bounded in bytes as well - 16 KiB vectors)
+            if curf is None or ((cur >= per or curb >= 120_000_000) and (g != last_grp or g < 0)):
                 if curf:
                     curf.close()
                 pth = os.path.join(d, f"wire_{prop}_{tier}.joined.part{len(parts)}")
                 parts.append(pth)
                 curf = open(pth, "w")
-                cur = 0
-            curf.write(json.dumps(dict(v=v, r=nr), separators=(",", ":")) + "\n")
+                cur, curb = 0, 0
+            line_out = json.dumps(dict(v=v, r=nr), separators=(",", ":")) + "\n"
+            curf.write(line_out)
+            curb += len(line_out)
             cur += 1
             last_grp = g
     if curf:
